@@ -161,7 +161,7 @@ def parse_tlc(out):
     return recs, notes, st
 
 
-def run_tlc(ctx, name, spec):
+def run_tlc(ctx, name, spec, env_override=None, allow_spec_violation=False):
     env = dict(os.environ)
     for k, v in spec.get("env", {}).items():
         if v.startswith("art:"):
@@ -170,6 +170,7 @@ def run_tlc(ctx, name, spec):
             env[k] = ctx.art(v[6:]) + ".alpha.json"
         else:
             env[k] = v
+    env.update(env_override or {})
     meta = os.path.join(WORK, "tlc", name)
     shutil.rmtree(meta, ignore_errors=True)
     os.makedirs(meta, exist_ok=True)
